@@ -45,3 +45,69 @@ package network
 //@     invariant 0 <= #idx + 1 && #idx < len(n.Outputs)
 //@     invariant forall m *NNode :: !m.visited
 //@     invariant maxDepth >= 0 && (maxDepthCap > 0 ==> maxDepth <= maxDepthCap)
+
+// ---- C11: the graph view of a network -------------------------------------------------------------
+//@ pred netNodesWF(n *Network) = (forall i :: 0 <= i && i < len(n.allNodes) ==> n.allNodes[i] != nil) && (forall i :: 0 <= i && i < len(n.allNodesMIMO) ==> n.allNodesMIMO[i] != nil) && (forall i :: 0 <= i && i < len(n.controlNodes) ==> n.controlNodes[i] != nil)
+// every link listed by a node is non-nil, has both endpoints, and is listed on the correct side
+//@ pred linkEndsWF() = forall m *NNode :: m != nil ==> (forall i :: 0 <= i && i < len(m.Incoming) ==> m.Incoming[i] != nil && m.Incoming[i].InNode != nil && m.Incoming[i].OutNode == m) && (forall i :: 0 <= i && i < len(m.Outgoing) ==> m.Outgoing[i] != nil && m.Outgoing[i].OutNode != nil && m.Outgoing[i].InNode == m)
+
+//@ func (*Network).nodeWithID
+//@   props C11
+//@   requires n != nil && netNodesWF(n)
+//@   modifies nothing
+//@   ensures [found] result != nil ==> result.Id == id && (exists i :: 0 <= i && i < len(n.allNodesMIMO) && n.allNodesMIMO[i] == result)
+//@   ensures [absent] result == nil ==> (forall i :: 0 <= i && i < len(n.allNodesMIMO) ==> n.allNodesMIMO[i].Id != id)
+//@   loop 1:
+//@     invariant -1 <= #idx && #idx < len(n.allNodesMIMO)
+//@     invariant forall i :: 0 <= i && i <= #idx ==> n.allNodesMIMO[i].Id != id
+//@ func (*Network).Node
+//@   props C11
+//@   requires n != nil && netNodesWF(n)
+//@   modifies nothing
+//@   ensures [absentIsNil] (forall i :: 0 <= i && i < len(n.allNodesMIMO) ==> n.allNodesMIMO[i].Id != id) ==> isNilIface(result)
+//@   ensures [found] !isNilIface(result) ==> typeIs(result, "*NNode") && asPtr(result, "*NNode") != nil && asPtr(result, "*NNode").Id == id
+//@   ensures [present] (exists i :: 0 <= i && i < len(n.allNodesMIMO) && n.allNodesMIMO[i].Id == id) ==> !isNilIface(result)
+//@ func (*Network).edgeBetween
+//@   props C11
+//@   requires n != nil && netNodesWF(n) && linkEndsWF()
+//@   modifies nothing
+//@   ensures [directedFound] directed && len(n.controlNodes) == 0 && result != nil ==> result.InNode.Id == uid && result.OutNode.Id == vid
+//@   ensures [undirectedFound] !directed && len(n.controlNodes) == 0 && result != nil ==> (result.InNode.Id == uid && result.OutNode.Id == vid) || (result.InNode.Id == vid && result.OutNode.Id == uid)
+//@   loop 1:
+//@     invariant -1 <= #idx && #idx < len(n.allNodes)
+//@     invariant uNode != nil ==> uNode.Id == uid
+//@     invariant vNode != nil ==> vNode.Id == vid
+//@   loop 2:
+//@     invariant -1 <= #idx && #idx < len(n.controlNodes)
+//@   loop 3:
+//@     invariant -1 <= #idx
+//@   loop 4:
+//@     invariant -1 <= #idx
+//@   loop 5:
+//@     invariant -1 <= #idx
+//@   loop 6:
+//@     invariant -1 <= #idx
+//@   loop 7:
+//@     invariant -1 <= #idx
+//@ func (*Network).Edge
+//@   props C11
+//@   requires n != nil && netNodesWF(n) && linkEndsWF()
+//@   modifies nothing
+//@   ensures [absentIsNil] isNilIface(result) || (typeIs(result, "*Link") && asPtr(result, "*Link") != nil)
+//@   ensures [found] !isNilIface(result) && len(n.controlNodes) == 0 ==> asPtr(result, "*Link").InNode.Id == uid && asPtr(result, "*Link").OutNode.Id == vid
+//@ func (*Network).WeightedEdge
+//@   props C11
+//@   requires n != nil && netNodesWF(n) && linkEndsWF()
+//@   modifies nothing
+//@   ensures [absentIsNil] isNilIface(result) || (typeIs(result, "*Link") && asPtr(result, "*Link") != nil)
+//@   ensures [found] !isNilIface(result) && len(n.controlNodes) == 0 ==> asPtr(result, "*Link").InNode.Id == uid && asPtr(result, "*Link").OutNode.Id == vid
+//@ func (*Network).Weight
+//@   props C11
+//@   requires n != nil && netNodesWF(n) && linkEndsWF()
+//@   modifies nothing
+//@   ensures [absent] !ok ==> w == 0.0
+//@ func (*Network).NodeCount
+//@   props C11
+//@   requires n != nil
+//@   modifies nothing
+//@   ensures [def] result == len(n.allNodes) + len(n.controlNodes)
